@@ -306,6 +306,21 @@ pub fn run(rep: &mut Report) {
         let ou = [Unit::Day, Unit::Week, Unit::Hour, Unit::Minute];
         crate::engine::order_pairs(rep, "c03.order", 24 + 36, |i, out| if i < 24 { j_unit(oa[(i / 4) as usize], ou[(i % 4) as usize], out) } else { j_pair(oa[((i - 24) / 6) as usize], oa[((i - 24) % 6) as usize], out) });
     }
+    // interior scan (round 8): pairs and triples of evenly spread, unremarkable counts
+    {
+        let nsc: u64 = if deep { 30_000_000 } else { 2_000_000 };
+        rep.bound("interior_scan_points", nsc);
+        sweep(rep, "c03.scan_pair", nsc, |i, out| {
+            let a = scan_dur(i, 0);
+            // one pair in four is a near miss of the first operand (same count, +-1 ns, exact negation)
+            let b = match i % 8 { 0 => a, 1 => (a + 1).min(DMAX), 2 => (a - 1).max(DMIN), 3 => -a, _ => scan_dur(i, 1) };
+            j_pair(a, b, out)
+        });
+        sweep(rep, "c03.scan_triple", nsc / 4, |i, out| j_triple(scan_dur(i, 2), scan_dur(i, 3), scan_dur(i, 4), out));
+        sweep(rep, "c03.scan_addmono", nsc, |i, out| j_addmono(scan_dur(i, 5), scan_dur(i + 1, 0), out));
+        sweep(rep, "c03.scan_unit", 9 * (nsc / 8), |i, out| j_unit(scan_dur(i / 9, 1), UNITS[(i % 9) as usize], out));
+        sweep(rep, "c03.scan_derived", 18 * (nsc / 16), |i, out| j_derived((i % 18) as usize, scan_dur(i / 18, 2), out));
+    }
     sweep(rep, "c03.unit", n * 9, |i, out| j_unit(dl[(i / 9) as usize], UNITS[(i % 9) as usize], out));
     sweep(rep, "c03.addmono", n * n, |i, out| j_addmono(dl[(i / n) as usize], dl[(i % n) as usize], out));
     sweep(rep, "c03.derived", n * 18, |i, out| j_derived((i % 18) as usize, dl[(i / 18) as usize], out));
